@@ -937,12 +937,13 @@ type verifWaitGroup struct {
 }
 
 func (w *verifWaitGroup) Add(d int) {
+	h := VerifLock // (read before the real Add: the waiter it releases may be the one that detaches the hook)
 	w.mu.Lock()
 	w.n += d
 	z := w.n == 0
 	w.mu.Unlock()
 	w.wg.Add(d)
-	if h := VerifLock; z && h != nil {
+	if z && h != nil {
 		h.Released(uintptr(unsafe.Pointer(w)) | 1)
 	}
 }
